@@ -84,21 +84,25 @@ pub fn check_delta_exact(
         let Some(c) = copies.get(&d.id) else {
             return Err(("C07/unknown-member-included".into(), format!("member {:?} is not held by the sender", d.id.node_id)));
         };
-        let (gc_d, max_d) = dmap.get(&d.id).map(|x| (x.last_gc, x.max_version)).unwrap_or((0, 0));
-        if c.max <= max_d {
-            return Err(("C07/not-ahead-included".into(), format!("member {:?}: sender max {} <= digest max {} yet included", d.id.node_id, c.max, max_d)));
-        }
-        let reset = gc_d < c.gc && max_d < c.gc;
-        let from = if reset { 0 } else { max_d };
-        if d.from_version != from {
-            return Err(("C07/start-version".into(), format!("member {:?}: announced start {} but expected {} (reset={reset})", d.id.node_id, d.from_version, from)));
-        }
-        if d.last_gc != c.gc {
-            return Err(("C07/header-watermark".into(), format!("member {:?}: header watermark {} != sender's {}", d.id.node_id, d.last_gc, c.gc)));
-        }
-        let owed: Vec<&WKv> = c.entries.iter().filter(|e| e.version > from).collect();
-        if d.kvs.len() > owed.len() {
-            return Err(("C07/extra-entries".into(), format!("member {:?}: {} key-values sent but only {} are above the start version", d.id.node_id, d.kvs.len(), owed.len())));
+        let _ = (is_last, &dmap);
+        // Exactly the sender's entries whose versions lie in (announced start, delta max version],
+        // ascending, nothing at or below the start. Which start is announced (incremental or
+        // from 0) and the header watermark are C14's business, not C07's.
+        let from = d.from_version;
+        let delta_max = if d.kvs.is_empty() { d.max_version } else { d.kvs.last().unwrap().version.max(d.max_version) };
+        let owed_all: Vec<&WKv> = c.entries.iter().filter(|e| e.version > from).collect();
+        let owed: Vec<&WKv> = owed_all.iter().copied().filter(|e| e.version <= delta_max).collect();
+        if d.kvs.len() != owed.len() {
+            return Err((
+                "C07/interval-not-exact".into(),
+                format!(
+                    "member {:?}: the delta announces ({from}, {delta_max}] and carries {} key-values, but the sender holds {} entries in that interval (versions {:?})",
+                    d.id.node_id,
+                    d.kvs.len(),
+                    owed.len(),
+                    owed.iter().map(|e| e.version).collect::<Vec<_>>()
+                ),
+            ));
         }
         for (i, kv) in d.kvs.iter().enumerate() {
             if kv != owed[i] {
@@ -111,25 +115,8 @@ pub fn check_delta_exact(
                 ));
             }
         }
-        if d.kvs.len() < owed.len() {
+        if d.kvs.len() < owed_all.len() || (owed_all.is_empty() && d.max_version == 0 && c.max > from) {
             truncated = true;
-            if !is_last {
-                return Err(("C07/truncated-in-the-middle".into(), format!("member {:?} is cut after {} of {} entries but is not the last member of the delta", d.id.node_id, d.kvs.len(), owed.len())));
-            }
-            if d.kvs.is_empty() && d.max_version != 0 {
-                return Err(("C07/bogus-max-version".into(), format!("member {:?}: entries above {} exist but an explicit max version {} was sent", d.id.node_id, from, d.max_version)));
-            }
-        } else if owed.is_empty() {
-            // Nothing above the start: only an explicit max version can be carried.
-            if d.max_version != 0 && d.max_version != c.max {
-                return Err(("C07/wrong-max-version".into(), format!("member {:?}: explicit max version {} != sender's {}", d.id.node_id, d.max_version, c.max)));
-            }
-            if d.max_version == 0 {
-                truncated = true; // the max-version op did not fit
-                if !is_last {
-                    return Err(("C07/truncated-in-the-middle".into(), format!("member {:?} carries nothing but is not the last member", d.id.node_id)));
-                }
-            }
         }
     }
     // Anything owed but absent means the reply was cut.
@@ -351,6 +338,10 @@ pub struct BoundaryCase {
     /// offered last, as a member header followed by an explicit max version (the 9-byte tail).
     #[serde(default)]
     pub tail_member: bool,
+    /// Members mentioned by the peer's SYN that the sender does not know yet (they enlarge the
+    /// sender's own digest between receiving the SYN and answering it).
+    #[serde(default)]
+    pub unknown_in_syn: u8,
 }
 
 fn reply_len_for(case: &BoundaryCase, last_len: usize, tally: &mut Tally, check: bool) -> Result<(usize, bool), Failure> {
@@ -376,7 +367,10 @@ fn reply_len_for(case: &BoundaryCase, last_len: usize, tally: &mut Tally, check:
         }
     }
     let copies = all_copies(&node);
-    let digest = vec![WNodeDigest { id: WId::from_real(&self_id), heartbeat: 1, last_gc: 0, max_version: (case.known as u64).min(case.keys as u64) }];
+    let mut digest = vec![WNodeDigest { id: WId::from_real(&self_id), heartbeat: 1, last_gc: 0, max_version: (case.known as u64).min(case.keys as u64) }];
+    for u in 0..case.unknown_in_syn {
+        digest.push(WNodeDigest { id: WId::v4(&format!("newcomer-{u:02}-{}", "n".repeat((u as usize * 7) % 40)), u as u64, 9600 + u as u16), heartbeat: 2, last_gc: 0, max_version: 0 });
+    }
     let msg = if case.synack { syn_message(&digest)? } else { synack_message(&digest)? };
     let reply = match guard(|| node.verif_process_message(msg)) {
         Ok(Some(r)) => r,
@@ -464,13 +458,14 @@ pub fn boundary_strategy() -> impl Strategy<Value = BoundaryCase> {
         any::<bool>(),
         0u32..1000,
         prop_oneof![2 => Just(false), 1 => Just(true)],
+        prop_oneof![3 => Just(0u8), 2 => 1u8..40],
     )
-        .prop_map(|(class, value_len, seed, known, synack, fill, tail_member)| {
+        .prop_map(|(class, value_len, seed, known, synack, fill, tail_member, unknown_in_syn)| {
             // Choose the key count so that the keys before the last one use 20..100 % of a datagram.
             let per_key = 19 + value_len as usize;
             let target = 13_000 + (fill as usize * 52_000) / 1000;
             let keys = (target / per_key).clamp(0, 1500) as u16;
-            BoundaryCase { class, value_len, keys, seed, known, synack, tail_member }
+            BoundaryCase { class, value_len, keys, seed, known, synack, tail_member, unknown_in_syn }
         })
 }
 
